@@ -56,7 +56,7 @@ CLAIMS['C04'] = dict(
           'compile-fail witnesses for privacy and const handles), deep write-freedom of every const member / const-reference function, '
           'no bitwise copies of owner objects, the mutator allow-list of ST::string, and read-before-write ordering for raw pointer / '
           'view arguments (self-reference). With C05\'s inductive exclusive-ownership invariant this proves that reads never mutate and '
-          'no two live strings share storage, for all operation sequences. R04.9: the owner invariant of each of the four buffer types (pointer and size class agree at that type's own small-buffer limit, long contents in an exclusively owned block) is established for every member that leaves a value behind, by the owner analysis shared with C05.'),
+          'no two live strings share storage, for all operation sequences. R04.9: the owner invariant of each of the four buffer types (pointer and size class agree at the small-buffer limit of that type, long contents in an exclusively owned block) is established for every member that leaves a value behind, by the owner analysis shared with C05.'),
     note=('relative to: clang-14 lowering, effect summaries by pointer provenance (model of externals by declared const-ness), C05; '
           'that returned VALUES are the right bytes is the subject of C07-C09, not of this check'),
     technique='static analysis: effect summaries + IR encapsulation rules + CFG event ordering + compile-fail witnesses')
